@@ -71,6 +71,15 @@ def _kind(run, P):
             run.incomplete("F-KIND/dims-not-sizes", c, where(g), f"call of {callee} not found")
             continue
         kw = next((k.value for k in call.keywords if k.arg == "source_data_mapping"), None)
+        if kw is None:
+            hp_ = P.func(f"{g.module.relpath}:{callee}").params()
+            if "source_data_mapping" in hp_ and len(call.args) > hp_.index("source_data_mapping"):
+                kw = call.args[hp_.index("source_data_mapping")]
+        gd_ = LocalDefs(g.node)
+        n_ = 0
+        while isinstance(kw, ast.Name) and n_ < 4 and len(gd_.defs.get(kw.id, [])) == 1 and gd_.defs[kw.id][0][1] is None and not gd_.defs[kw.id][0][2]:
+            kw = gd_.defs[kw.id][0][0]       # a local bound once to the kind
+            n_ += 1
         ok = kw is not None and isinstance(kw, ast.Call) and (dotted(kw.func) or [""])[-1] == "_source_data_mapping_from_dims" and kw.args and norm(kw.args[0]) == f"{g.params()[0]}.dims"
         if ok:
             run.holds("F-KIND/dims-not-sizes", c, where(g, call), "source kind passed from the data array's dimension names")
